@@ -120,6 +120,7 @@ class Trace:
         self.main = []      # (seq, "as", ms, level, logic, term) (seq, "fr", ms, "push"/"pop", n) (seq, "chk", ms, s) (seq, "res", ms, status)
         self.order = []
         self.ms_of = {}     # solver id -> MainSolver id
+        self.fk = []        # (logic, [(term idx, sign, coeff string)]) LA conflicts with the solver's coefficients
         seq = 0
         for line in open(path, errors="replace"):
             w = line.split()
@@ -157,6 +158,12 @@ class Trace:
                 self.main.append((seq, "chk", w[1], w[2]))
                 self.solver(w[2])
                 self.ms_of[w[2]] = w[1]
+            elif tag == "fk":
+                tt = self.logics[w[2]]
+                trip = []
+                for i in range(3, len(w), 3):
+                    trip.append((tt.by_raw[int(w[i])].idx, int(w[i + 1]), w[i + 2]))
+                self.fk.append((w[2], trip))
             elif tag == "res":
                 self.main.append((seq, "res", w[1], w[2]))
             else:
